@@ -70,6 +70,16 @@ CertFocusLines ==
       \* certificate whose certified key is listed @revoked is still
       \* accepted by asyncssh -- the property asks for a non-revoked CA only
       <<L("ca", "name", "CA1"), L("revoked", "name", "K1")>> }
+CbCertLines ==
+    { <<>>,
+      <<L("ca", "name", "CA1")>>,
+      <<L("ca", "name", "CA2")>>,
+      <<L("revoked", "name", "CA1")>>,
+      <<L("ca", "name", "CA1"), L("revoked", "name", "CA1")>>,
+      <<L("revoked", "port", "CA1")>>,
+      <<L("plain", "name", "K1")>>,
+      <<L("revoked", "name", "K1")>>,
+      <<L("ca", "port", "CA1"), L("revoked", "both", "CA2")>> }
 AllLineSeqs == UNION {[1..n -> Line] : n \in 0..MaxLines}
 
 (* Focus "sets": known_hosts contents as sets of SetSize distinct matching  *)
@@ -112,6 +122,12 @@ Init ==
           /\ lines \in AllLineSeqs /\ port \in {"def", "nondef"}
           /\ mode = "file" /\ cbKey \in BOOLEAN /\ cbCA \in BOOLEAN
           /\ pres \in PresKey \cup PresCertGood
+       \/ /\ Focus = "cbcert"
+          \* the owner callbacks crossed with what known_hosts says about
+          \* the CA / key and with every certificate defect
+          /\ lines \in CbCertLines /\ port \in {"def", "nondef"}
+          /\ mode = "file" /\ cbKey \in BOOLEAN /\ cbCA \in BOOLEAN
+          /\ pres \in PresKey \cup PresCertAll
        \/ /\ Focus = "trustall"
           /\ lines \in {<<>>, <<L("revoked", "both", "K1")>>,
                         <<L("revoked", "both", "CA1")>>}
@@ -136,7 +152,10 @@ Variants == {"dropPortRevoked", "orRevoked", "revokedPrimaryOnly",
              "typeIgnored", "vbInclusive", "vaLoose", "windowIgnored",
              "princIgnored", "emptyPrincRejected", "certSigIgnored",
              "holdsIgnored", "cbKeyForRevoked", "cbCAForRevoked",
-             "trustAllSkipsSig", "noFallback"}
+             "trustAllSkipsSig", "noFallback",
+             \* a callback may only widen WHICH key / CA is trusted
+             "cbWaivesCertChecks", "cbWaivesType", "cbWaivesWindow",
+             "cbWaivesPrinc", "cbKeyForCert", "cbCAForKey"}
 
 LineSet == {lines[i] : i \in 1..Len(lines)}
 InPrimary(l) == IF port = "nondef" THEN l.match \in {"port", "both"}
@@ -187,20 +206,26 @@ WindowOK(mu, w) ==
 (* the client's decision, in the order the code takes it *)
 KeyAccepted(mu) ==
     \/ mode = "none"
+    \/ mu = "cbCAForKey" /\ cbCA /\ pres.key \notin Revoked(mu)
     \/ /\ (pres.key \notin Revoked(mu) \/ mu = "skipRevokedKey"
            \/ (mu = "cbKeyForRevoked" /\ cbKey))
        /\ (pres.key \in TrustedKeys(mu) \/ cbKey)
+(* the CA is not listed, the owner's validate_host_ca_key vouched for it *)
+ViaCallback(mu) == pres.ca \notin TrustedCAs(mu) /\ cbCA
+Waived(mu, what) == ViaCallback(mu) /\ mu \in {"cbWaivesCertChecks", what}
 CertAccepted(mu) ==
     /\ (pres.certSig \/ mu = "certSigIgnored") \* else the blob does not decode
     /\ \/ mode = "none"
        \/ mu = "certKeyAsPlain" /\ pres.key \in TrustedKeys(mu)
                                 /\ pres.key \notin Revoked(mu)
+       \/ mu = "cbKeyForCert" /\ cbKey /\ pres.key \notin Revoked(mu)
        \/ /\ (pres.ca \notin Revoked(mu) \/ mu = "skipRevokedCA"
               \/ (mu = "cbCAForRevoked" /\ cbCA))
           /\ (pres.ca \in TrustedCAs(mu) \/ cbCA \/ mu = "anyCA")
-          /\ (pres.type = "host" \/ mu = "typeIgnored")
-          /\ WindowOK(mu, pres.win)
-          /\ \/ mu = "princIgnored"
+          /\ (pres.type = "host" \/ mu = "typeIgnored"
+              \/ Waived(mu, "cbWaivesType"))
+          /\ (WindowOK(mu, pres.win) \/ Waived(mu, "cbWaivesWindow"))
+          /\ \/ mu = "princIgnored" \/ Waived(mu, "cbWaivesPrinc")
              \/ pres.princ = "covers"
              \/ pres.princ = "empty" /\ mu # "emptyPrincRejected"
 DecisionM(mu) ==
